@@ -393,3 +393,26 @@ Proof.
       * lia.
 Qed.
 End Blocks.
+
+(* the items of an array are part of its encoding *)
+Lemma in_concat_le {A} (x : list A) l : In x l -> (length x <= length (concat l))%nat.
+Proof.
+  induction l as [|y l IH]; [contradiction|]. cbn [concat]. rewrite app_length. intros [->|H]; [lia|]. specialize (IH H). lia.
+Qed.
+
+Lemma enc_blocks_concat_le : forall n bk sized items, (length items <= n)%nat ->
+  (length (concat items) <= length (enc_blocks n bk sized items))%nat.
+Proof.
+  induction n as [|n IH]; intros bk sized items Hn.
+  - destruct items; [cbn; lia|cbn [length] in Hn; lia].
+  - destruct items as [|x r]; [cbn [concat length]; lia|].
+    set (items := x :: r) in *.
+    set (m := match bk with O => length items | S _ => Nat.min bk (length items) end).
+    assert (Hm : (1 <= m <= length items)%nat) by (unfold m, items; cbn [length]; destruct bk; lia).
+    assert (Henc : enc_blocks (S n) bk sized items =
+                   (if sized then write_long (- Z.of_nat m) ++ write_long (Z.of_nat (length (concat (firstn m items))))
+                    else write_long (Z.of_nat m)) ++ concat (firstn m items) ++ enc_blocks n bk sized (skipn m items)) by reflexivity.
+    rewrite Henc. rewrite <- (firstn_skipn m items) at 1. rewrite concat_app, !app_length.
+    assert (Hs : (length (skipn m items) <= n)%nat) by (rewrite skipn_length; lia).
+    specialize (IH bk sized (skipn m items) Hs). lia.
+Qed.
